@@ -347,6 +347,23 @@ def c08(tier):
     rnd = random.Random(core.seed())
     ck.cov["design"] = design(ck)
     ck.cov["design_as_written"] = design_as_written(ck, ["pruned"])
+    # the score conventions: ScoreAlgebra.tla (ASSUMEs = design checks) prints the table of is_mate / announcement / win_in / lost_in,
+    # replayed into the engine's own functions
+    res = core.tlc_ok(core.tlc("ScoreAlgebra.tla", cfg="ScoreAlgebra.cfg", workers=1, timeout=600, metadir=os.path.join(ck.work, "md_sa")), "ScoreAlgebra")
+    rows = [x for x in res["strings"] if x.startswith("SCO ") or x.startswith("WIN ")]
+    if len(rows) < 200:
+        raise InfraError("ScoreAlgebra printed %d rows" % len(rows))
+    tab = os.path.join(ck.work, "scores.rows")
+    open(tab, "w").write("\n".join(rows) + "\n")
+    sres = os.path.join(ck.work, "scores.res")
+    core.run_vh(exe, ["score-table", "--in", tab, "--out", sres])
+    srecs = [json.loads(l) for l in open(sres)]
+    if [r for r in srecs if r.get("summary")][0]["rows"] != len(rows):
+        raise InfraError("score table replay incomplete")
+    for r in srecs:
+        if not r.get("summary"):
+            ck.discrepancy({"kind": "score_algebra"}, r)
+    ck.cov["score_table_rows"] = len(rows)
     pool = make_pool(ck, exe, 3000 if full else 300, 20000 if full else 3000, attack=60000 if full else 3000)
     mate1 = [p for p in pool if p["mate1"]]
     plan = []
